@@ -192,7 +192,11 @@ class AbstractWav(ABC):
         Looks both before and after the timeStamp
         """
 
-        leftStartTime = rightStartTime = targetTime
+        # Search from inside the recording: from a target far outside [0, duration]
+        # the cursors would need |targetTime| / timeStep iterations to get there
+        # (and never arrive once targetTime - timeStep == targetTime)
+        leftStartTime = min(targetTime, self.duration)
+        rightStartTime = max(targetTime, 0)
 
         samplesPerStep = timeStep * self.frameRate
         if samplesPerStep < 2:
